@@ -220,7 +220,7 @@ def refine_cases(rng, n):
             ms = rng.choice([["newton"], ["newton", "none"], ["none"], ["none", "newton"]])
             si = rng.randrange(npts)
             ei = rng.randrange(si, npts)
-            cases.append(dict(base, kind="contour", pts=pts, methods=ms, skip=rng.random() < 0.5, si=si, ei=ei, psival=hx(_poly(coef, R, Z))))
+            cases.append(dict(base, kind="contour" if i % 20 < 15 else "fine", pts=pts, methods=ms, skip=rng.random() < 0.5, si=si, ei=ei, psival=hx(_poly(coef, R, Z))))
     return cases
 
 
@@ -296,7 +296,7 @@ def refine_correspondence(chk, n):
         if c["kind"] == "newton" and not resid(r[1:3]) < bound * (1 + 1e-9) + 1e-300:
             nviol += 1
             chk.fail("refine:newton-accepts-off-surface", "refinePointNewton returned a point whose psi differs from psival by more than the tolerance", {"case": c, "got": r, "residual": resid(r[1:3]), "bound": bound})
-        if c["kind"] == "contour" and set(c["methods"]) == {"newton"}:
+        if c["kind"] in ("contour", "fine") and set(c["methods"]) == {"newton"}:
             for j, a in enumerate(r[1]):
                 if c["skip"] and j in (c["si"], c["ei"]):
                     continue
